@@ -328,7 +328,10 @@ impl Check for C19Check {
             let bad_rate = *r.pick(&[0u64, 5, 15, 40]);
             let mut events = Vec::new();
             for k in 0..ne {
-                serial = serial.wrapping_add(1 + r.below(3) as u32);
+                // (in every fifth scenario the first event of each file repeats the serial number of the
+                // event before it - serial numbers are the logger's business, not an identity)
+                let step = 1 + r.below(3) as u32;
+                serial = serial.wrapping_add(if index % 5 == 3 && k == 0 { 0 } else { step });
                 let kind = match r.below(100) {
                     0..=9 => "chrono",
                     10..=14 => "seq",
